@@ -4,6 +4,10 @@ import _aspenkv as A
 
 
 def run(ctx):
+    return A.guarded(ctx, _run)
+
+
+def _run(ctx):
     states, trans, design = A.run_design(ctx, "C13")
     total, gs, gt, samples, stats, fams = A.run_ingress(ctx, "C13")
     nscen, accepted, cstats, tv_rows, nbad = A.run_cluster_layer(ctx, "C13")
